@@ -140,8 +140,15 @@ def find_loops(fn):
     return fn.find(lambda n: n.get("k") in ("rangefor", "for", "while", "do"))
 
 
-def enclosing_loops(fn, node):
-    return [a for a in fn.ancestors(node) if a.get("k") in ("rangefor", "for", "while", "do")]
+def enclosing_loops(fn, node, local=False):
+    """loops around node, innermost first; local=True stops at the boundary of a helper body that was spliced in"""
+    out = []
+    for a in fn.ancestors(node):
+        if local and a.get("k") == "call" and a.get("inl_body") is not None:
+            break
+        if a.get("k") in ("rangefor", "for", "while", "do"):
+            out.append(a)
+    return out
 
 
 def atom_eq(target_pred, value):
